@@ -72,7 +72,11 @@ func (sc *Scenario) candidates(b *budget) []Event {
 			out = append(out, Event{K: "un", C: c}, Event{K: "re", C: c})
 		}
 		if b.f < sc.F {
-			out = append(out, Event{K: "fu", C: c})
+			// a failing updater that first applies one edit of the alphabet (so
+			// that it touches what earlier events left) and then returns an error
+			for _, op := range sc.alphabet(c) {
+				out = append(out, Event{K: "fu", C: c, Op: op})
+			}
 		}
 		if b.y < sc.Y && (sc.MaxSyncPerClient == 0 || b.perSync[c] < sc.MaxSyncPerClient) {
 			out = append(out, Event{K: "s", C: c})
